@@ -125,7 +125,19 @@ func (e *posEngine) generate(r *rng, n int, tier string, emit func(string)) {
 		if r.chance(1, 7) {
 			via = 100
 		}
+		if via != 100 && r.chance(1, 9) {
+			via = 101
+		}
 		switch {
+		case via == 101:
+			// an ARITY mismatch raised by the binder while a builtin applies a function defined on other lines: the fault is
+			// the applying call, not the (correct) definition
+			tb.write("(def add2 (fn [a b]\n  (+ a\n     b)))\n")
+			for k, m := 0, r.intn(3); k < m; k++ {
+				tb.write(r.pick(fillerForms) + "\n")
+			}
+			fault = r.pick([]string{"(map add2 [1 2])", "(apply add2 [1])", "(swap! (atom 0) add2)", "(update {:k 1} :k add2)", "(apply add2\n  [1 2 3])"})
+			place(wrapFault(r, fault))
 		case via == 100:
 			// TWINS: the same library-macro call, written identically, stands in two functions on different lines; the
 			// first one is evaluated (successfully) before the second one fails: the error belongs to the SECOND text
@@ -194,6 +206,13 @@ func (e *posEngine) run(payload string) string {
 	cursor := NewCursorFile(module)
 	if strings.Contains(" "+payload+" ", " h=1 ") {
 		cursor = nil
+		if len(text)%2 == 1 {
+			// an embedder's ONE module-less cursor object used for several reads: an earlier text's header must not stick to it
+			cursor = NewAnonymousCursorHere(1, 1)
+			if _, err := lisp.READ(";; $MODULE earlier-program.lisp\n(+ 1 2)", cursor, env); err != nil {
+				return "setup-error"
+			}
+		}
 	}
 	ast, err := lisp.READ(string(text), cursor, env)
 	if err != nil {
